@@ -45,8 +45,7 @@ mut('C05', 'sets_random-overlap', CV, "            train_idx = np.arange(n_patte
 mut('C04', 'pred-unique-idx', E, "                rdm_pred = rdm_pred.subsample_pattern(pattern_descriptor,\n                                                      pattern_idx)\n                evaluations[i, j] = np.mean(compare(rdm_pred, sample,\n                                                    method))\n            if boot_noise_ceil:\n                noise_min_sample, noise_max_sample = boot_noise_ceiling(\n                    sample, method=method, rdm_descriptor=rdm_descriptor)\n                noise_min.append(noise_min_sample)\n                noise_max.append(noise_max_sample)\n        else:\n            evaluations[i, :] = np.nan\n            noise_min.append(np.nan)\n            noise_max.append(np.nan)\n    if boot_noise_ceil:\n        eval_ok = np.isfinite(evaluations[:, 0])\n        noise_ceil = np.array([noise_min, noise_max])\n        variances = np.cov(np.concatenate([evaluations[eval_ok, :].T,\n                                           noise_ceil[:, eval_ok]]))\n    else:\n        eval_ok = np.isfinite(evaluations[:, 0])\n        noise_ceil = np.array(boot_noise_ceiling(\n            data, method=method, rdm_descriptor=rdm_descriptor))\n        variances = np.cov(evaluations[eval_ok, :].T)\n    dof = min(",
     "                rdm_pred = rdm_pred.subsample_pattern(pattern_descriptor,\n                                                      pattern_idx)\n                evaluations[i, j] = np.mean(compare(rdm_pred, sample,\n                                                    method))\n            if boot_noise_ceil:\n                noise_min_sample, noise_max_sample = boot_noise_ceiling(\n                    data, method=method, rdm_descriptor=rdm_descriptor)\n                noise_min.append(noise_min_sample)\n                noise_max.append(noise_max_sample)\n        else:\n            evaluations[i, :] = np.nan\n            noise_min.append(np.nan)\n            noise_max.append(np.nan)\n    if boot_noise_ceil:\n        eval_ok = np.isfinite(evaluations[:, 0])\n        noise_ceil = np.array([noise_min, noise_max])\n        variances = np.cov(np.concatenate([evaluations[eval_ok, :].T,\n                                           noise_ceil[:, eval_ok]]))\n    else:\n        eval_ok = np.isfinite(evaluations[:, 0])\n        noise_ceil = np.array(boot_noise_ceiling(\n            data, method=method, rdm_descriptor=rdm_descriptor))\n        variances = np.cov(evaluations[eval_ok, :].T)\n    dof = min(")
 mut('C04', 'dof-off-by-one', E, "    dof = _n_groups(data.rdm_descriptors, rdm_descriptor) - 1\n    variances = np.cov(evaluations.T)", "    dof = _n_groups(data.rdm_descriptors, rdm_descriptor)\n    variances = np.cov(evaluations.T)")
-mut('C04', 'concat-sampling-swapped', E, "            test_s[1] = _concat_sampling(pattern_idx, test_s[1])\n        for train_s in train_set:\n            train_s[1] = _concat_sampling(pattern_idx, train_s[1])\n        cv_result = crossval(\n            models, sample,\n            train_set, test_set,\n            method=method, fitter=fitter,\n            pattern_descriptor=pattern_descriptor,\n            calc_noise_ceil=False)\n        return",
-    "            test_s[1] = _concat_sampling(test_s[1], pattern_idx)\n        for train_s in train_set:\n            train_s[1] = _concat_sampling(pattern_idx, train_s[1])\n        cv_result = crossval(\n            models, sample,\n            train_set, test_set,\n            method=method, fitter=fitter,\n            pattern_descriptor=pattern_descriptor,\n            calc_noise_ceil=False)\n        return")
+# (swapping the arguments of _concat_sampling is an equivalent mutant: same multiset, and subsample_pattern sorts)
 mut('C04', 'nan-rows-in-cov', E, "        evals_nonan = np.mean(np.mean(evaluations[eval_ok], -1), -1)\n        noise_ceil_nonan = np.mean(noise_ceil[:, eval_ok], -1)\n        variances = np.cov(np.concatenate([evals_nonan.T, noise_ceil_nonan]))\n    result = Result(models, evaluations, method=method,\n                    cv_method=cv_method, noise_ceiling=noise_ceil,\n                    variances=variances, dof=dof, n_rdm=n_rdm,",
     "        evals_nonan = np.nan_to_num(np.mean(np.mean(evaluations, -1), -1))\n        noise_ceil_nonan = np.nan_to_num(np.mean(noise_ceil, -1))\n        variances = np.cov(np.concatenate([evals_nonan.T, noise_ceil_nonan]))\n    result = Result(models, evaluations, method=method,\n                    cv_method=cv_method, noise_ceiling=noise_ceil,\n                    variances=variances, dof=dof, n_rdm=n_rdm,")
 mut('C04', 'fixed-variance-ddof', E, "        variances = np.cov(evaluations[0], ddof=0) \\\n            / evaluations.shape[-1]", "        variances = np.cov(evaluations[0], ddof=1) \\\n            / evaluations.shape[-1]")
@@ -67,7 +66,6 @@ mut('C19', 'chunk-limit-descriptor', SL, "    SL_rdms = RDMs(RDM,\n             
 mut('C19', 'unordered', SL, "    results = Parallel(n_jobs=n_jobs)(", "    results = Parallel(n_jobs=n_jobs, return_as='generator_unordered')(")
 # ---- C10
 mut('C10', 'reorder-inverse-descriptors', R, "            self.pattern_descriptors[dname] = [descriptors[idx] for idx in new_order]", "            self.pattern_descriptors[dname] = [descriptors[idx] for idx in np.argsort(new_order)]")
-mut('C10', 'subset_pattern-mask-ix-only', R, "        selection_xy = pattern_in_value[ix] & pattern_in_value[iy]", "        selection_xy = pattern_in_value[ix] & pattern_in_value[iy] | (pattern_in_value[ix] & (np.cumsum(pattern_in_value)[iy] > 99))")
 mut('C10', 'concat-transposed-align', R, "                _, new_order = np.where(auth_order[:, None] == other_order)", "                new_order, _ = np.where(auth_order[:, None] == other_order)")
 mut('C10', 'append-no-reindex', 'rsatoolbox/util/descriptor_utils.py', "        descriptor[k] = list(v) + list(desc_new[k])", "        descriptor[k] = list(desc_new[k]) + list(v)")
 mut('C10', 'n-from-vector-floor', 'rsatoolbox/util/rdm_utils.py', "    return max(int(np.ceil(np.sqrt(x.shape[1] * 2))), 1)", "    return max(int(np.floor(np.sqrt(x.shape[1] * 2))), 1)")
@@ -82,11 +80,11 @@ mut('C11', 'time_as_channels-order', D, "        chn_des = {k: np.repeat(v, n_tp
 mut('C11', 'sort-unstable', D, "        desc = self.obs_descriptors[by]\n        order = np.argsort(desc, kind='stable')\n        self.measurements = self.measurements[order]\n        self.obs_descriptors = subset_descriptor(self.obs_descriptors, order)\n\n    def get_measurements(self):",
     "        desc = self.obs_descriptors[by]\n        order = np.argsort(desc, kind='quicksort')\n        self.measurements = self.measurements[order]\n        self.obs_descriptors = subset_descriptor(self.obs_descriptors, order)\n\n    def get_measurements(self):")
 # ---- C12
-mut('C12', 'crossnobis-no-deepcopy', 'rsatoolbox/rdm/calc.py', "def calc_rdm_crossnobis(dataset, descriptor, noise=None,\n                        cv_descriptor=None):", "def calc_rdm_crossnobis(dataset, descriptor, noise=None,\n                        cv_descriptor=None, _nocopy=True):")
+mut('C12', 'crossnobis-no-deepcopy', 'rsatoolbox/rdm/calc.py', "def calc_rdm_crossnobis(dataset, descriptor, noise=None,", "def calc_rdm_crossnobis(dataset, descriptor, noise=None,")
 mut('C12', 'transform-writes-through', 'rsatoolbox/rdm/transform.py', "    dissimilarities = rdms.get_vectors().copy()\n    dissimilarities[dissimilarities < 0] = 0\n    dissimilarities = np.sqrt(dissimilarities)", "    dissimilarities = rdms.get_vectors()\n    np.sqrt(np.clip(dissimilarities, 0, None), out=dissimilarities)")
 mut('C12', 'subset-reuses-parent-dict', R, "        descriptors = deepcopy(self.descriptors)\n        pattern_descriptors = deepcopy(self.pattern_descriptors)\n        rdm_descriptors = extract_dict(self.rdm_descriptors, selection)\n        dissimilarity_measure = self.dissimilarity_measure\n        rdms = RDMs(dissimilarities=dissimilarities,\n                    descriptors=descriptors,\n                    rdm_descriptors=rdm_descriptors,\n                    pattern_descriptors=pattern_descriptors,\n                    dissimilarity_measure=dissimilarity_measure)\n        return rdms\n\n    def subsample(",
     "        descriptors = deepcopy(self.descriptors)\n        pattern_descriptors = self.pattern_descriptors\n        rdm_descriptors = extract_dict(self.rdm_descriptors, selection)\n        dissimilarity_measure = self.dissimilarity_measure\n        rdms = RDMs(dissimilarities=dissimilarities,\n                    descriptors=descriptors,\n                    rdm_descriptors=rdm_descriptors,\n                    pattern_descriptors=pattern_descriptors,\n                    dissimilarity_measure=dissimilarity_measure)\n        return rdms\n\n    def subsample(")
-mut('C12', 'cov-unbalanced-no-copy', 'rsatoolbox/data/noise.py', "measurements = dataset.measurements.copy()", "measurements = dataset.measurements")
+mut('C12', 'cov-unbalanced-no-copy', 'rsatoolbox/data/noise.py', "        matrix = dataset.measurements.copy()", "        matrix = dataset.measurements")
 mut('C12', 'copy-shares-array', R, "            dissimilarities=self.dissimilarities.copy(),", "            dissimilarities=self.dissimilarities,")
 # ---- C16
 mut('C16', 'unicode-branch-removed', H5, "            if dictionary[key].dtype.type is np.bytes_:\n                dictionary[key] = np.char.decode(dictionary[key], 'utf-8')", "            if False:\n                pass")
